@@ -203,8 +203,10 @@ func TestC09(t *testing.T) {
 		}
 		staleNotModified(t, r, dir)
 		handWrittenFiles(r, dir)
+		differentVAtOnce(t, r, dir)
+		auditFailureIsNotNotModified(t, r, dir)
 	}
-	r.Require("hand_written_file_entries", "post_quiescence_conditional_gets", "concurrent_conditional_gets", "histories", "db_notchanged", "db_value", "http_notchanged", "http_value", "file_notchanged", "file_value", "denied_checks",
+	r.Require("overlapping_polls_with_different_v", "conditional_gets_with_failing_audit", "hand_written_file_entries", "post_quiescence_conditional_gets", "concurrent_conditional_gets", "histories", "db_notchanged", "db_value", "http_notchanged", "http_value", "file_notchanged", "file_value", "denied_checks",
 		"shape_reactivated_older_version", "shape_v_existing_inactive", "shape_v_names_deleted_version", "shape_v_beyond_latest")
 	r.Rule("seeded histories of 15-30 put/activate/delete-version/delete steps over 2 names; after every step conditional gets with V in {0, 1, active, every version number up to latest (existing and deleted), latest+1, 2^32-1} on both names and an absent one, through db.GetConditional, HTTP handler + setec.Client, and FileClient on a file generated from the model; plus a caller without get permission. Distinct = (front end, class of V, model outcome)")
 }
@@ -450,4 +452,114 @@ func handWrittenFiles(r *evid.Run, dir string) {
 			}
 		}
 	}
+}
+
+type stallSink struct{ wait time.Duration }
+
+func (s *stallSink) Write(p []byte) (int, error) {
+	time.Sleep(s.wait) // the caller is inside the handler: the other requests of the burst arrive meanwhile
+	return len(p), nil
+}
+
+// differentVAtOnce: ONE caller (one identity, one grant) sends conditional gets for one secret carrying
+// different V at the same moment (a fleet of clients behind one node, some already up to date), while the
+// audit sink is slow so that the requests overlap inside the server. Nothing changes meanwhile, so every
+// answer is determined: 304 exactly for V = active.
+func differentVAtOnce(t *testing.T, r *evid.Run, dir string) {
+	d, err := db.Open(filepath.Join(dir, "diffv.db"), realdb.DummyKey("c09v"), audit.New(&stallSink{wait: 200 * time.Microsecond}))
+	if err != nil {
+		t.Fatal(err)
+	}
+	su := realdb.Super()
+	for v := 1; v <= 3; v++ {
+		d.Put(su, "polled", []byte(fmt.Sprintf("bytes-of-%d", v)))
+	}
+	d.Activate(su, "polled", 2)
+	srv, err := httpdrv.New(d)
+	if err != nil {
+		t.Fatal(err)
+	}
+	srv.SetWho(addr, httpdrv.Who{Login: "fleet@verif", Node: "fleet", Rules: []refmodel.Rule{{Actions: []string{"get"}, Patterns: []string{"*"}}}})
+	cl := setec.Client{Server: "http://setec.verif", DoHTTP: srv.ClientDo(addr)}
+	ctx := context.Background()
+	var bad atomic.Int32
+	for round := 0; round < r.N(150, 1500); round++ {
+		var wg sync.WaitGroup
+		var gate atomic.Bool
+		for g := 0; g < 8; g++ {
+			v := api.SecretVersion([]uint32{2, 1, 2, 3, 2, 99, 1, 2}[(g+round)%8])
+			wg.Add(1)
+			go func() {
+				defer wg.Done()
+				for !gate.Load() {
+				}
+				sv, err := cl.GetIfChanged(ctx, "polled", v)
+				r.Count("overlapping_polls_with_different_v", 1)
+				c := realdb.Classify(err)
+				ok := c == refmodel.NotChanged
+				if v != 2 {
+					ok = c == refmodel.OK && sv != nil && sv.Version == 2 && string(sv.Value) == "bytes-of-2"
+				}
+				if !ok && bad.Add(1) <= 3 {
+					key := "http-value-although-unchanged"
+					if v != 2 {
+						key = "http-not-modified-although-changed"
+					}
+					r.Violation(key, -1, fmt.Sprintf("round %d: eight conditional gets of one caller with different V at once; the one with V=%d got %s %v (err %v) while version 2 was active throughout", round, v, c, sv, err), nil)
+				}
+			}()
+		}
+		gate.Store(true)
+		wg.Wait()
+	}
+	r.Eval(1)
+	r.Distinct("overlapping polls with different V")
+}
+
+// auditFailureIsNotNotModified: when the record for delivering a changed value cannot be written, the caller
+// is told about a failure - never "not modified" (which would mean: V is still active).
+func auditFailureIsNotNotModified(t *testing.T, r *evid.Run, dir string) {
+	snk := &realdb.FlakySink{}
+	d, err := realdb.OpenFlaky(filepath.Join(dir, "auditfail.db"), realdb.DummyKey("c09a"), snk)
+	if err != nil {
+		t.Fatal(err)
+	}
+	su := realdb.Super()
+	for v := 1; v <= 3; v++ {
+		d.Put(su, "polled", []byte(fmt.Sprintf("bytes-of-%d", v)))
+	}
+	d.Activate(su, "polled", 2)
+	srv, err := httpdrv.New(d)
+	if err != nil {
+		t.Fatal(err)
+	}
+	srv.SetWho(addr, httpdrv.Who{Login: "ok@verif", Node: "ok", Rules: []refmodel.Rule{{Actions: []string{"get"}, Patterns: []string{"*"}}}})
+	cl := setec.Client{Server: "http://setec.verif", DoHTTP: srv.ClientDo(addr)}
+	ctx := context.Background()
+	for _, v := range []uint32{1, 3, 4, 99, 4294967295, 2, 0} {
+		for _, failing := range []bool{true, false, true} {
+			snk.FailSync.Store(failing)
+			_, e1 := d.GetConditional(su, "polled", api.SecretVersion(v))
+			_, e2 := cl.GetIfChanged(ctx, "polled", api.SecretVersion(v))
+			snk.FailSync.Store(false)
+			for i, err := range []error{e1, e2} {
+				r.Eval(1)
+				r.Count("conditional_gets_with_failing_audit", 1)
+				c := realdb.Classify(err)
+				if c == refmodel.NotChanged && v != 2 {
+					r.Violation([]string{"db", "http"}[i]+"-not-modified-although-changed", -1, fmt.Sprintf("get-if-changed V=%d while version 2 is active and the audit log is failing=%t: answered \"not modified\"", v, failing), nil)
+					return
+				}
+				if failing && v != 2 && c == refmodel.OK {
+					r.Violation([]string{"db", "http"}[i]+"-conditional-get-wrong", -1, fmt.Sprintf("get-if-changed V=%d delivered a value although its audit record could not be written", v), nil)
+					return
+				}
+				if v == 2 && c != refmodel.NotChanged {
+					r.Violation([]string{"db", "http"}[i]+"-value-although-unchanged", -1, fmt.Sprintf("get-if-changed V=2 (the active version), audit failing=%t: %v", failing, err), nil)
+					return
+				}
+			}
+		}
+	}
+	r.Distinct("conditional get with failing audit log")
 }
